@@ -14,7 +14,7 @@ RULE = ("equilibrium tissues: Voronoi diagrams (uniform / jittered-hexagonal / P
         "generate_mesh(ne=2..12); x method {default,lsq,lsq_linear} x fit {dlite,taubinSVD}; allow_negatives=False. "
         "decisive = augmented oracle system has full column rank (sigma_min >= 1e-3) and the fit-precision tolerance is "
         "<= 5% of the largest tension; distinct = (family, cells, equations, unknowns, points, method, fit, pose, resampled)")
-MIN_DECISIVE = {"quick": 100, "thorough": 1500}
+MIN_DECISIVE = {"quick": 80, "thorough": 1000}
 REQUIRED_COUNTERS = ["post:solve_stress", "tension:compared"]
 REQUIRED_HIST = {"any": ["method:default", "method:lsq", "method:lsq_linear", "fit:dlite", "fit:taubinSVD", "resampled"]}
 TECHNIQUE = ("runtime contract on ForSys.solve_stress against the analytic truth of generated equilibrium tissues "
@@ -40,7 +40,7 @@ def anchors():
 
 def cases(seed, tier):
     q = tier == "quick"
-    n = 120 if q else 1500
+    n = 190 if q else 1800
     fams = ["mob", "mob", "vor", "mob"]
     return [{"fam": fams[i % 4], "seed": [seed, 1, i], "count": 2} for i in range(n)]
 
@@ -157,7 +157,7 @@ def _install():
         # solver tolerances measured on the unchanged tree with >= 10x margin (lsq_linear works on the normal equations:
         # its error grows like 1e-9 / sigma_min^4)
         solver_tol = {None: 1e-7 * (1 + 1 / smin), "lsq": 1e-5 * (1 + 1 / smin),
-                      "lsq_linear": 1e-4 + 5e-8 / smin ** 4}[c["method"]]
+                      "lsq_linear": 2e-4 + 2.5e-7 / smin ** 4}[c["method"]]
         if straddle == 0:
             first = np.linalg.norm(dA @ x_true)
             tol = 5 * pinv_norm * first * (1 + pinv_norm * np.linalg.norm(dA, 2)) + solver_tol
